@@ -95,6 +95,23 @@ def run(tier, seed, ck=None, which=None):
                 return want(mth)
         return True
     jobs = [j for j in jobs if job_wanted(j['id'])]
+    # embedded: the contract of a method is needed for the receiver patterns the embedding check's code uses.  The executor reports them
+    # (alias / zero / dirty) for every summarised call; unless some call passes a receiver holding an unrelated value ("dirty"), the
+    # distinct-receiver obligations are proved for a freshly constructed receiver, which is all the embedding proof relies on.
+    fresh = set()
+    if not own:
+        for k, mth in JOBMETH.items():
+            pats = ck.usage.get('(*field.Element).' + mth)
+            if pats is not None and 'dirty' not in pats:
+                fresh.add(mth)
+        for j in jobs:
+            mth = next((m_ for k_, m_ in JOBMETH.items() if j['id'].startswith(k_)), None)
+            distinct = (j.get('args') or [0])[-1] == 0 or j['id'] in ('frombytes', 'h2f') or j['id'].startswith('nored')
+            if mth in fresh and distinct and j['id'] != 'misc':
+                j['flags'] = {'zero_receivers': True}
+        if fresh:
+            ck.notes.append('field contracts proved for fresh or aliased receivers only (no caller in the encoded code passes a receiver holding another value): %s' % sorted(fresh))
+    ck.extra['_fresh_receivers'] = sorted(fresh)
     runs = ck.absorb(core.symx_parallel(HARNESS, jobs, pkg='field'))
     ck.extra.setdefault('_runs', []).extend(runs)
     R_ = {r.id: r for r in runs}
@@ -335,10 +352,13 @@ def run(tier, seed, ck=None, which=None):
 
 def battery(ck, wanted=None):
     names = sorted(wanted or ALL_METHODS) + (['AliasedSqrtRatio'] if ck.pid == 'C12' else [])
-    path = ck.save_replay({'property': ck.pid, 'pkg': 'field', 'cases': ck.extra.get('_cex', []) + [{'kind': 'field-battery', 'op': str(ck.seed), 'b': ','.join(names)}]})
+    path = ck.save_replay({'property': ck.pid, 'pkg': 'field', 'cases': ck.extra.get('_cex', []) + [{'kind': 'field-battery', 'op': str(ck.seed), 'b': ','.join(names), 'c': ','.join(ck.extra.get('_fresh_receivers', []))}]})
     ok, out = core.go_test(path, pkg='field')
     if not ok and 'MISMATCH' in out:
-        ck.violation('field-api', 'field layer wrong on boundary/seeded operands: %s' % [l.strip() for l in out.splitlines() if 'MISMATCH' in l][:1], path)
+        wit = [int(c_[k_], 16) for c_ in ck.extra.get('_cex', []) for k_ in ('a', 'b') if c_.get(k_) and int(c_[k_], 16)]
+        import re as _re
+        wit += [int(h_, 16) for h_ in _re.findall(r'limbs ([0-9a-f]{64})', out)[:4]]
+        ck.dep_violation('field', 'field-api', 'field layer wrong on boundary/seeded operands: %s' % [l.strip() for l in out.splitlines() if 'MISMATCH' in l][:1], path, wit)
     else:
         ck.inconclusive.append('failed obligation did not reproduce on boundary/seeded operands: ' + out[-200:])
 
